@@ -56,8 +56,65 @@ type DEvent struct {
 // lower address. Whatever global order the library uses (addresses, creation numbers, …), lock 0 is
 // then "the one that comes first in it", so the recorded sequences do not depend on where the
 // allocator happened to put the two sets.
-func OrderedPair() (lo, hi mapset.Set) {
-	x, y := mapset.NewSet(1, 2), mapset.NewSet(2, 3)
+func OrderedPair() (lo, hi mapset.Set) { return OrderedPairShape("base") }
+
+// Shapes: how the two sets of a recording / replay / stress run come about and how long the argument list of a
+// variadic operation is. The lock events of an operation must not depend on any of that; a shape whose recorded
+// events differ from the base shape's is kept as an entry of its own (`Op@shape`) and has to pass the same
+// obligations.
+//
+//	base        two fresh two-member sets, one argument
+//	apart256    the second set is created exactly 256 thread-safe sets after the first (a creation number kept in 8 bits)
+//	apart65536  ... exactly 65536 after the first (kept in 16 bits)
+//	big         2500 members each, 600 arguments (anything done in batches, by size or by count)
+var Shapes = []string{"base", "apart256", "apart65536", "big"}
+
+// NArgs is the number of arguments a variadic operation is called with under a shape.
+func NArgs(shape string) int {
+	if shape == "big" {
+		return 600
+	}
+	return 1
+}
+
+// BigSize is the number of members of a "big" operand of an operation (PowerSet and CartesianProduct grow too fast).
+func BigSize(method string) int {
+	switch method {
+	case "PowerSet":
+		return 10
+	case "CartesianProduct":
+		return 200
+	}
+	return 2500
+}
+
+func shapedPair(shape string, method string) (x, y mapset.Set) {
+	x = mapset.NewSet(1, 2)
+	switch shape {
+	case "apart256":
+		for i := 0; i < 255; i++ {
+			mapset.NewSet()
+		}
+	case "apart65536":
+		for i := 0; i < 65535; i++ {
+			mapset.NewSet()
+		}
+	}
+	y = mapset.NewSet(2, 3)
+	if shape == "big" {
+		n := BigSize(method)
+		for i := 10; i < 10+n; i++ {
+			x.Add(i)
+			y.Add(i + n/2)
+		}
+	}
+	return
+}
+
+func OrderedPairShape(shape string) (lo, hi mapset.Set) { return OrderedPairFor(shape, "") }
+
+func OrderedPairFor(shape string, method string) (lo, hi mapset.Set) {
+	x, y := shapedPair(shape, method)
 	first := func(recv, arg mapset.Set) mapset.Set {
 		var mu sync.Mutex
 		var got mapset.Set
@@ -98,8 +155,12 @@ func OrderedPair() (lo, hi mapset.Set) {
 }
 
 func RecordTrace(method string, pattern string) ([]DEvent, error) {
+	return RecordTraceShape(method, pattern, "base")
+}
+
+func RecordTraceShape(method string, pattern string, shape string) ([]DEvent, error) {
 	// lock ids by the library's own acquisition order (address order in the repaired code)
-	lo, hi := OrderedPair()
+	lo, hi := OrderedPairFor(shape, method)
 	idOf := func(s any) int {
 		switch reflect.ValueOf(s).Pointer() {
 		case reflect.ValueOf(lo).Pointer():
@@ -143,7 +204,9 @@ func RecordTrace(method string, pattern string) ([]DEvent, error) {
 		in := mt.In(i)
 		switch {
 		case mt.IsVariadic() && i == mt.NumIn()-1:
-			args = append(args, reflect.ValueOf(1))
+			for k := 0; k < NArgs(shape); k++ {
+				args = append(args, reflect.ValueOf(1+k))
+			}
 		case in.Kind() == reflect.Interface && in.NumMethod() > 0:
 			args = append(args, reflect.ValueOf(arg))
 		default:
@@ -247,15 +310,25 @@ func Skeletons() ([]Entry, error) {
 	var out []Entry
 	for _, n := range names {
 		for _, p := range patternsOf(binary[n]) {
-			tr, err := RecordTrace(n, p)
-			if err != nil {
-				return nil, err
+			var base string
+			for _, shape := range Shapes {
+				tr, err := RecordTraceShape(n, p, shape)
+				if err != nil {
+					return nil, err
+				}
+				acts := make([]Act, len(tr))
+				for i, t := range tr {
+					acts[i] = Act{dynKind[t.Op], t.Set, false}
+				}
+				key := fmt.Sprint(acts)
+				if shape == "base" {
+					base = key
+					out = append(out, Entry{n, p, acts})
+				} else if key != base {
+					// the lock events depend on how the sets came about / how much there is to do
+					out = append(out, Entry{n + "@" + shape, p, acts})
+				}
 			}
-			acts := make([]Act, len(tr))
-			for i, t := range tr {
-				acts[i] = Act{dynKind[t.Op], t.Set, false}
-			}
-			out = append(out, Entry{n, p, acts})
 		}
 	}
 	return out, nil
@@ -294,58 +367,70 @@ func All(repo string) (map[string]string, []Entry, error) {
 			return nil, nil, fmt.Errorf("%s: source and running code disagree on whether it takes another set", n)
 		}
 		for _, p := range patternsOf(binary[n]) {
-			tr, err := RecordTrace(n, p)
-			if err != nil {
-				return nil, nil, err
-			}
-			paths, err := in.Paths(n, p == "AA")
-			if err != nil {
-				return nil, nil, fmt.Errorf("walking %s(%s): %v", n, p, err)
-			}
-			lockOf := LockOf(p)
-			seen := map[string]bool{}
-			var closest string
-			matched := 0
-			for _, path := range paths {
-				var acts []Act
-				k, ok := 0, true
-				for _, e := range path {
-					switch e.kind {
-					case "access":
-						acts = append(acts, Act{"access", lockOf[e.ops[0]], e.write})
-					case "lock":
-						id := lockOf[e.ops[0]]
-						if k >= len(tr) || tr[k].Op != e.name || tr[k].Set != id {
-							ok = false
-						} else {
-							acts = append(acts, Act{dynKind[e.name], id, false})
-						}
-						k++
-					}
+			var baseTr string
+			for _, shape := range Shapes {
+				tr, err := RecordTraceShape(n, p, shape)
+				if err != nil {
+					return nil, nil, err
 				}
-				if !ok || k != len(tr) {
-					if closest == "" {
-						closest = pathString(path)
-					}
+				if shape == "base" {
+					baseTr = fmt.Sprint(tr)
+				} else if fmt.Sprint(tr) == baseTr {
 					continue
 				}
-				matched++
-				parts := make([]string, len(acts))
-				for i, a := range acts {
-					parts[i] = a.Token()
+				n := n
+				if shape != "base" {
+					n = n + "@" + shape
 				}
-				key := strings.Join(parts, ",")
-				if !seen[key] {
-					seen[key] = true
-					out = append(out, Entry{n, p, acts})
-					if static[n+":"+p] != "" {
-						static[n+":"+p] += " | "
+				paths, err := in.Paths(strings.SplitN(n, "@", 2)[0], p == "AA")
+				if err != nil {
+					return nil, nil, fmt.Errorf("walking %s(%s): %v", n, p, err)
+				}
+				lockOf := LockOf(p)
+				seen := map[string]bool{}
+				var closest string
+				matched := 0
+				for _, path := range paths {
+					var acts []Act
+					k, ok := 0, true
+					for _, e := range path {
+						switch e.kind {
+						case "access":
+							acts = append(acts, Act{"access", lockOf[e.ops[0]], e.write})
+						case "lock":
+							id := lockOf[e.ops[0]]
+							if k >= len(tr) || tr[k].Op != e.name || tr[k].Set != id {
+								ok = false
+							} else {
+								acts = append(acts, Act{dynKind[e.name], id, false})
+							}
+							k++
+						}
 					}
-					static[n+":"+p] += pathString(path)
+					if !ok || k != len(tr) {
+						if closest == "" {
+							closest = pathString(path)
+						}
+						continue
+					}
+					matched++
+					parts := make([]string, len(acts))
+					for i, a := range acts {
+						parts[i] = a.Token()
+					}
+					key := strings.Join(parts, ",")
+					if !seen[key] {
+						seen[key] = true
+						out = append(out, Entry{n, p, acts})
+						if static[n+":"+p] != "" {
+							static[n+":"+p] += " | "
+						}
+						static[n+":"+p] += pathString(path)
+					}
 				}
-			}
-			if matched == 0 {
-				return nil, nil, fmt.Errorf("aligning %s(%s): none of the %d source paths makes the recorded lock events %v; e.g. the source path [%s]", n, p, len(paths), tr, closest)
+				if matched == 0 {
+					return nil, nil, fmt.Errorf("aligning %s(%s): none of the %d source paths makes the recorded lock events %v; e.g. the source path [%s]", n, p, len(paths), tr, closest)
+				}
 			}
 		}
 	}
